@@ -9,6 +9,7 @@ import (
 	"runtime/debug"
 	"sort"
 	"sync"
+	"time"
 
 	asv1 "github.com/pingcap/advanced-statefulset/client/apis/apps/v1"
 	pcinformers "github.com/pingcap/advanced-statefulset/client/client/informers/externalversions"
@@ -24,6 +25,7 @@ import (
 	appslisters "k8s.io/client-go/listers/apps/v1"
 	corelisters "k8s.io/client-go/listers/core/v1"
 	"k8s.io/client-go/tools/cache"
+	"k8s.io/client-go/util/retry"
 	"k8s.io/klog/v2"
 
 	"verif/harness/simapi"
@@ -36,6 +38,11 @@ func init() {
 	fs.Set("alsologtostderr", "false")
 	fs.Set("stderrthreshold", "FATAL")
 	klog.SetOutput(io.Discard)
+	// client-go's conflict-retry helpers sleep in real time between attempts; the
+	// number of attempts is what matters to the properties, so the pauses are
+	// shrunk (these are client-go package variables, not repository code).
+	retry.DefaultBackoff.Duration = 20 * time.Microsecond
+	retry.DefaultRetry.Duration = 20 * time.Microsecond
 }
 
 // capInformer wraps a real shared informer and remembers the handlers the
@@ -466,4 +473,14 @@ func (w *World) run(key string, viaWorker bool) (rec *Record) {
 		}
 	}
 	return rec
+}
+
+// ResetQueue installs a fresh virtual-time queue holding keys in the given order.
+func (w *World) ResetQueue(keys ...string) {
+	w.Q = NewVQueue()
+	w.Ctl.VerifSetQueue(w.Q)
+	for _, k := range keys {
+		w.Q.Add(k)
+	}
+	w.Q.Ops = nil
 }
